@@ -1,6 +1,7 @@
 (* The single extracted entry point: one S-expression in, one string out.  Definitions only. *)
 From Verif Require Import Base Tokens Scanner Parser Lazy Algebra Coding Contrasts Frame Eval Design.
 From Verif Require TransformsCmd.
+From Verif Require Import Env History.
 Local Close Scope Qc_scope.
 Local Close Scope Q_scope.
 Local Open Scope string_scope.
@@ -106,6 +107,32 @@ Definition newgroup_sexp (r : newgroup) : sexp :=
      L (map (fun s => L [A (fst (fst s)); AN (snd (fst s)); AN (snd s)]) (ng_slices r));
      strs_sexp (ng_new_factors r); bool_sexp (ng_warned r)].
 
+(* ---- C11: scopes ---- *)
+Fixpoint dec_obj (fuel : nat) (x : sexp) : obj :=
+  match fuel with
+  | O => Marker "?"
+  | S f =>
+      match x with
+      | SList [SAtom "m"; SAtom v] => Marker v
+      | SList [SAtom "mod"; SList attrs] =>
+          Module (flat_map (fun a => match a with
+                                     | SList [SAtom n; v] => [(n, dec_obj f v)]
+                                     | _ => [] end) attrs)
+      | _ => Marker "?"
+      end
+  end.
+Definition dec_scope (x : sexp) : scope :=
+  match x with
+  | SList l => flat_map (fun a => match a with SList [SAtom n; v] => [(n, dec_obj 8 v)] | _ => [] end) l
+  | _ => []
+  end.
+Definition dec_stack (x : sexp) : list pyframe :=
+  match x with
+  | SList l => flat_map (fun a => match a with SList [lo; gl] => [PyFrame (dec_scope lo) (dec_scope gl)] | _ => [] end) l
+  | _ => []
+  end.
+Definition obj_sexp (o : obj) : sexp := match o with Marker m => A m | Module _ => A "<module>" end.
+
 Section Run.
   Variable ksqrt : Qc -> Qc.
 
@@ -149,6 +176,35 @@ Section Run.
                                 | _ => res_sexp newgroup_sexp (new_group cx (dec_mode mode) d f) end]
                          end) news)]
         end
+    | "c07", [SList formulas; SList frames; SList ops] =>
+        let es := flat_map (fun f => match f with
+                                     | SAtom s => match parse_string s with Ok e => [e] | Err _ => [ELiteral LNone None] end
+                                     | _ => [] end) formulas in
+        let frs := flat_map (fun f => match dec_frame f with Some x => [x] | None => [] end) frames in
+        let p := Pools es frs (DCtx [] ksqrt) in
+        let dec_op (x : sexp) : list op :=
+          let num s := match zread s with Some z => Z.to_nat z | None => O end in
+          match x with
+          | SList [SAtom "build"; SAtom f; SAtom fr] => [OBuild (num f) (num fr)]
+          | SList [SAtom "common"; SAtom d; SAtom fr] => [OEvalCommon (num d) (num fr)]
+          | SList [SAtom "group"; SAtom d; SAtom fr] => [OEvalGroup (num d) (num fr)]
+          | SList [SAtom "config"; SAtom v] => [OSetConfig v]
+          | _ => []
+          end in
+        L (map (fun o => match o with
+                         | OutDesign d => L [A "design"; res_sexp design_sexp d]
+                         | OutCommon r => L [A "common"; res_sexp newres_sexp r]
+                         | OutGroup r => L [A "group"; res_sexp newgroup_sexp r]
+                         | OutConfig b => L [A "config"; bool_sexp b]
+                         | OutBad => L [A "bad"] end)
+               (snd (run p init_state (flat_map dec_op ops))))
+    | "c11", [SAtom role; SAtom depth; SList path; data; builtins; stack; extra] =>
+        let e := EnvIn (dec_scope data) (dec_scope builtins) (dec_stack stack) (dec_scope extra) in
+        let d := match zread depth with Some z => Z.to_nat z | None => O end in
+        res_sexp obj_sexp
+          (if String.eqb role "arg"
+           then match dec_atoms path with [x] => resolve_arg e d x | _ => Err EKey end
+           else resolve_callee e d (dec_atoms path))
     | "c12", [SAtom formula; fr; na; extra] =>
         L [res_sexp (fun x => x) (do m <- describe_string formula; model_obs m);
            res_sexp design_sexp (build_design formula fr na extra)]
